@@ -262,6 +262,21 @@ def monitor(eg, input_ty, output_enum, final_variants, all_variants, data_reques
                 else:
                     report("C05", "answer-type", "a received packet is answered with %s" % ty, state)
                 return ("W1", True, varset)
+            if k == "RWA":
+                # transport helper read_packet_with_ack = read, then (only on success) write Ack; its own
+                # discipline is checked on the helper's body (C06/helper)
+                if phase == "P":
+                    report("C05", "answer-before-next-read", "a packet is read while the previous one is still unanswered / not handed out", state)
+                    return None
+                if phase != "L":
+                    report("C05", "read-in-order", "read_packet_with_ack in phase %s (command not yet acknowledged?)" % phase, state)
+                    return None
+                if ty != output_enum:
+                    report("C05", "reply-type", "read_packet_with_ack parses %s, the sequence's reply enum is %s" % (ty, output_enum), state)
+                if data_request:
+                    report("C05", "data-answer", "read_packet_with_ack acknowledges every packet, but %s must be answered with %s"
+                           % (data_request, data_answer), state)
+                return ("W1", True, None)
             report("C05", "unknown-io", "unrecognised transport call %s" % (ty,), state)
             return None
         if kind == "yield":
@@ -325,7 +340,7 @@ def monitor(eg, input_ty, output_enum, final_variants, all_variants, data_reques
                     return ("L", False, None)
                 if k == "R" and phase == "R1":
                     return ("P", False, None)
-                if k == "W" and phase == "W1":
+                if k in ("W", "RWA") and phase == "W1":
                     return ("P", True, varset)
             return ms
         if label[0] == "V":
